@@ -637,6 +637,10 @@ DOMNode* DOMElementImpl::rename(const XMLCh* namespaceURI, const XMLCh* name)
         fName = doc->getPooledString(name);
         fAttributes->reconcileDefaultAttributes(getDefaultAttributes());
 
+        // the element changed its name in place: live lists of elements by
+        // tag name must notice
+        doc->changed();
+
         // and fire user data NODE_RENAMED event
         castToNodeImpl(this)->callUserDataHandlers(DOMUserDataHandler::NODE_RENAMED, this, this);
 
